@@ -101,7 +101,7 @@ fn c13_rescale_cross_width() {
     let ip2: u8 = kani::any();
     let op2: u8 = kani::any();
     kani::assume(ip2 >= 2 && ip2 <= 12 && op2 >= 1 && op2 <= 9);
-    kani::assume(w.abs() < P10[ip2 as usize]);
+    kani::assume(w > -P10[ip2 as usize] && w < P10[ip2 as usize]);
     let got2 = rescale_decimal::<Decimal64Type, Decimal32Type>(w, ip2, 2, op2, 0);
     let e2 = exact::<-2>(w);
     let fits2 = e2.abs() < P10[op2 as usize];
